@@ -74,5 +74,42 @@ func MergeLeftToRight(t Tuple, ts ...Tuple) Tuple {
 			t = t.With(name, value)
 		}
 	}
+	// With() always yields a generic tuple; restore the canonical representation so that
+	// e.g. (@: 0) +> (@char: 97) equals the tuple literal (@: 0, @char: 97).
+	if g, is := t.(*GenericTuple); is && canCanonicalise(g) {
+		return g.Canonical()
+	}
 	return t
+}
+
+// canCanonicalise reports whether NewTuple represents g exactly: (@, @char|@byte|@item) pairs are
+// specialised with an int index and a rune/byte payload, so anything that does not fit stays generic.
+func canCanonicalise(g *GenericTuple) bool {
+	if g.Count() != 2 {
+		return true
+	}
+	at, has := g.Get("@")
+	if !has {
+		return true
+	}
+	fits := func(v Value, conv func(float64) float64) bool {
+		n, is := v.(Number)
+		return is && conv(n.Float64()) == n.Float64()
+	}
+	index := fits(at, func(f float64) float64 { return float64(int(f)) })
+	if v, has := g.Get(StringCharAttr); has {
+		return index && fits(v, func(f float64) float64 { return float64(rune(f)) })
+	}
+	if v, has := g.Get(BytesByteAttr); has {
+		return index && fits(v, func(f float64) float64 {
+			if f < 0 || f > 255 {
+				return -1
+			}
+			return float64(byte(f))
+		})
+	}
+	if _, has := g.Get(ArrayItemAttr); has {
+		return index
+	}
+	return true
 }
